@@ -140,24 +140,26 @@ Print Assumptions C19_every_single_copy_site_is_framed.
 
 (* ---- FUNCTION BODIES (model/HeapProg.v) ---------------------------------------------------------
    A structured language for the slice-relevant behaviour of a Go function body: registers holding
-   slices, the operations of model/Heap.v with freely chosen indices/lengths/bytes, opaque callee
-   writes, stores into objects, escapes (return / store in a shared object / kept by a callee),
-   two-way branches, loops with break/continue, early return; an execution may also stop before any
-   statement (panic).  `own_stmt` is the ownership analysis (flags joined with AND at joins, loop
-   heads lowered to a fixpoint). *)
+   slices (an object register stands for one may-alias class of objects and is never copied), the operations
+   of model/Heap.v with freely chosen indices/lengths/bytes, opaque callee writes, stores into objects,
+   escapes (return / store in a shared object / kept by a callee), call records, two-way branches, loops with
+   break/continue, early return; an execution may also stop before any statement (panic).  `own_stmt` is the
+   ownership analysis: three flags per register (may be WRITTEN through / may be KEPT / object is PRIVATE),
+   joined with AND at joins, loop heads lowered to a fixpoint. *)
 
-(* THE FRAME THEOREM for bodies: a body that passes the analysis from the flags own0 - on EVERY
-   execution - changes no caller array except those of the parameters flagged in own0, and lets
-   escape only slices living in arrays allocated during the call or in those flagged parameters. *)
+(* THE FRAME THEOREM for bodies: a body that passes the analysis from the write flags wf and keep flags kf
+   of its parameters - on EVERY execution - changes no caller array except those of the parameters flagged
+   in wf, and lets escape only slices living in arrays allocated during the call or in those of the
+   parameters flagged in kf. *)
 Theorem C19_disciplined_body_frames_the_caller :
-  forall h0 regs own0 prog o h' regs' lg',
-    List.length own0 = List.length regs ->
-    body_disciplined own0 prog = true ->
+  forall h0 regs wf kf prog o h' regs' lg',
+    List.length wf = List.length regs -> List.length kf = List.length regs ->
+    body_disciplined wf kf prog = true ->
     exec (h0, regs, []) prog o (h', regs', lg') ->
-    (forall s, wf_slice h0 s -> ~ In (arr s) (writable regs own0) ->
+    (forall s, wf_slice h0 s -> ~ In (arr s) (writable regs wf) ->
        read h' s = read h0 s /\ read_cap h' s = read_cap h0 s) /\
     (forall r, In r lg' ->
-       (List.length h0 <= arr r /\ forall s, wf_slice h0 s -> arr s <> arr r) \/ In (arr r) (writable regs own0)).
+       (List.length h0 <= arr r /\ forall s, wf_slice h0 s -> arr s <> arr r) \/ In (arr r) (writable regs kf)).
 Proof. exact disciplined_body_frames_the_caller. Qed.
 Print Assumptions C19_disciplined_body_frames_the_caller.
 
@@ -168,48 +170,81 @@ Example C19_disciplined_body_example :
   let h0 := [[1; 2; 3]%N; [9; 9]%N] in
   let regs := [mkSlice 0 0 3 3; mkSlice 1 0 2 2; mkSlice 0 0 0 0] in
   let prog := seq [SClone 2 0; SLoop (seq [SSet 2; SIf SJump SSkip]); SEscape 2; SReturn] in
-  body_disciplined [false; false; false] prog = true /\
+  body_disciplined [false; false; false] [false; false; false] prog = true /\
   exists h' regs' r, exec (h0, regs, []) prog OReturn (h', regs', [r]) /\ arr r = 2 /\
     firstn 2 h' = h0 /\ read h' r = [7; 2; 3]%N.
 Proof. exact disciplined_body_example. Qed.
 Print Assumptions C19_disciplined_body_example.
 
 Theorem C19_undisciplined_bodies_refuted :
-  (body_disciplined [false] (SWrite 0) = false /\
+  (body_disciplined [false] [false] (SWrite 0) = false /\
    exists h0 param caller h' regs' lg',
      exec (h0, [param], []) (SWrite 0) ONormal (h', regs', lg') /\ wf_slice h0 caller /\
      read_cap h' caller <> read_cap h0 caller) /\
-  (body_disciplined [false; false] (SAppend 1 0) = false /\
+  (body_disciplined [false; false] [false; false] (SAppend 1 0) = false /\
    exists h0 param caller h' regs' lg',
      exec (h0, [param; param], []) (SAppend 1 0) ONormal (h', regs', lg') /\ wf_slice h0 caller /\
      read h' caller <> read h0 caller) /\
-  (body_disciplined [false] (SEscape 0) = false /\
+  (body_disciplined [false] [false] (SEscape 0) = false /\
    exists h0 param h' regs' r,
      exec (h0, [param], []) (SEscape 0) ONormal (h', regs', [r]) /\ wf_slice h0 param /\ arr r = arr param).
 Proof. exact undisciplined_bodies_refuted. Qed.
 Print Assumptions C19_undisciplined_bodies_refuted.
 
+(* NEGATIVE EXAMPLES: the pointer-alias probes of the third audit (an object register copied, a store
+   through the copy, the original returned or written through) are rejected by the check of a table entry -
+   as they stand (object registers may not be copied) and in the one-register-per-class form the translator
+   emits (the store lowers the class); the Read(p) exemption grants write but not keep; a store into an object
+   after it was handed out lets the stored value escape. *)
+Example C19_alias_probes_are_rejected :
+  body_checked [1; 2] [false; false; false] [false; false; false]
+    (seq [SMake 1; SAlias 2 1; SStore 2 0; SEscape 1; SReturn]) = false /\
+  body_checked [1; 2; 3] [false; false; false; false] [false; false; false; false]
+    (seq [SMake 1; SAlias 2 1; SAlias 3 2; SStore 3 0; SEscape 2; SReturn]) = false /\
+  body_checked [1; 2; 3; 4; 5] [false; false; false; false; false; false] [false; false; false; false; false; false]
+    (seq [SMake 1; SMake 2; SPhi 3 [1; 2]; SAlias 4 3; SLoop (seq [SAlias 5 4; SStore 5 0]); SEscape 4; SReturn]) = false /\
+  body_checked [1; 2; 3; 4] [false; false; false; false; false] [false; false; false; false; false]
+    (seq [SMake 1; SPhi 2 [1]; SAlias 3 2; SAlias 4 3; SStore 4 0; SSet 3; SReturn]) = false /\
+  body_checked [1] [false; false] [false; false] (seq [SMake 1; SStore 1 0; SEscape 1; SReturn]) = false /\
+  body_checked [1] [false; false] [false; false] (seq [SMake 1; SStore 1 0; SSet 1; SReturn]) = false /\
+  body_checked [1] [false; false; false] [false; false; false]
+    (seq [SMake 1; SClone 2 0; SStore 1 2; SEscape 1; SReturn]) = true /\
+  body_checked [0] [false; true] [false; false] (seq [SSet 1; SReturn]) = true /\
+  body_checked [0] [false; true; false] [false; false; false] (seq [SSub 2 1; SSet 2; SReturn]) = true /\
+  body_checked [0] [false; true; false] [false; false; false] (seq [SSub 2 1; SStore 0 2; SReturn]) = false /\
+  body_checked [1] [false; false] [false; false] (seq [SMake 1; SEscape 1; SStore 1 0; SReturn]) = false.
+Proof. exact alias_probes_are_rejected. Qed.
+Print Assumptions C19_alias_probes_are_rejected.
+
 (* THE TIE, body level.  gen/AliasBodies.v (regenerated from /repo on every run) holds the translated
    body of every function of the library's non-test packages that takes, keeps or returns byte memory
    - as far as the translator's subset reaches; the others are listed in c19_body_untranslated and are
-   NOT covered - with, at call sites, the effect of the callee (trusted table for callees outside the
-   library; inferred summary, itself an entry of this table, for callees inside).  For EVERY entry:
-   every execution frames the caller up to the parameters flagged in the entry ... *)
+   NOT covered.  Checked by computation on the table (every_body_ok): each body passes the analysis from its
+   flags; object registers are never copied; and every CALL RECORD meets the contract (write / keep flags) of
+   the entry it names - so that what a callee inside the library does to its arguments is an obligation over
+   the table, not trust in the translator (what a RESULT may alias, and the table of callees outside the
+   library, remain trusted).  For EVERY entry: every execution frames the caller up to the flagged
+   parameters ... *)
 Theorem C19_every_function_body_frames_the_caller :
   forall e, In e c19_bodies ->
   forall h0 regs o h' regs' lg', List.length regs = fb_nregs e ->
     exec (h0, regs, []) (fb_prog e) o (h', regs', lg') ->
-    (forall s, wf_slice h0 s -> ~ In (arr s) (writable regs (fb_flags e)) ->
+    (forall s, wf_slice h0 s -> ~ In (arr s) (writable regs (fb_wflags e)) ->
        read h' s = read h0 s /\ read_cap h' s = read_cap h0 s) /\
     (forall r, In r lg' ->
        (List.length h0 <= arr r /\ forall s, wf_slice h0 s -> arr s <> arr r) \/
-       In (arr r) (writable regs (fb_flags e))).
+       In (arr r) (writable regs (fb_kflags e))).
 Proof. exact every_body_frames_the_caller. Qed.
 Print Assumptions C19_every_function_body_frames_the_caller.
 
 (* ... and an API function (exported function or method of a non-internal package) that is not in the
    explicit exception list c19_body_exceptions has NO flagged parameter: it changes nothing the caller
-   can see, and whatever it returns or stores lives in memory allocated during the call. *)
+   can see, and every byte slice it returns or stores - directly or inside an object the analysis follows:
+   an object built in the function, or an object it was handed whose type is NOT in the whitelist
+   c19_immutable_types - lives in memory allocated during the call.  (An object of a whitelisted type that the
+   function was handed may be kept or returned as a whole: the whitelist is the library struct types with only
+   unexported byte-reaching fields through whose values no entry writes, stores or hands out a view - the
+   "no entry writes" part is re-checked below - plus a few standard-library key types, trusted.) *)
 Theorem C19_every_api_function_body_frames_the_caller :
   forall e, In e c19_bodies -> fb_api e = true -> excepted e = false ->
   forall h0 regs o h' regs' lg', List.length regs = fb_nregs e ->
@@ -219,13 +254,27 @@ Theorem C19_every_api_function_body_frames_the_caller :
 Proof. exact every_api_body_frames_the_caller. Qed.
 Print Assumptions C19_every_api_function_body_frames_the_caller.
 
-(* coverage, as numbers of the regenerated table: considered = translated + untranslated; the table is
-   not trivial (more than 1000 bodies, more than 5000 instructions, fewer than a quarter untranslated) *)
+(* what the call-site obligation gives for one record *)
+Theorem C19_call_record_meets_contract :
+  forall wf kf args eff, call_ok_args wf kf args eff = true ->
+  forall j a, In a (nth j args []) ->
+    (nth j wf false = true -> has_write a eff = true) /\ (nth j kf false = true -> has_escape a eff = true).
+Proof. exact call_record_meets_contract. Qed.
+Print Assumptions C19_call_record_meets_contract.
+
+Theorem C19_immutable_types_are_not_written : forallb immutable_ok c19_bodies = true.
+Proof. exact immutable_types_are_not_written. Qed.
+Print Assumptions C19_immutable_types_are_not_written.
+
+(* coverage, as numbers of the regenerated table: considered = translated + untranslated; how many entries
+   contain a statement on which the analysis can fail at all; the table is not trivial *)
 Theorem C19_body_table_coverage :
   (List.length c19_bodies = c19_bodies_translated /\
    c19_bodies_translated + List.length c19_body_untranslated = c19_bodies_considered /\
-   List.length (filter fb_api c19_bodies) = c19_bodies_api) /\
+   List.length (filter fb_api c19_bodies) = c19_bodies_api /\
+   List.length (filter (fun e => can_fail (fb_prog e)) c19_bodies) = c19_bodies_that_can_fail) /\
   (Nat.ltb 1000 c19_bodies_translated = true /\ Nat.ltb 5000 c19_bodies_instructions = true /\
+   Nat.ltb 500 c19_bodies_that_can_fail = true /\ Nat.ltb 1000 c19_bodies_call_records = true /\
    Nat.ltb (4 * List.length c19_body_untranslated) c19_bodies_considered = true).
 Proof. exact (conj body_counts_add_up body_table_not_trivial). Qed.
 Print Assumptions C19_body_table_coverage.
